@@ -100,7 +100,7 @@ def sensitivity(argv):
 def run_digests(eng, tier, seed, indices):
     """event-log digests of the given runs, computed in this interpreter"""
     tree, _ = runner.snapshot_tree()
-    eng.init_worker(tree, os.path.join(runner.scratch_root(), "digest"))
+    eng.init_worker(tree, os.path.join(runner.scratch_root(), "wDIGEST0"))
     res = {}
     for idx in indices:
         sc = eng.scenario(tier, idx)
